@@ -19,7 +19,7 @@ def call(f, *a, **k):
         return _call(f, *a, **k)
 
 PROPERTY = "C19"
-RULE = ("1-3 sample buffers per case, 1-4 frames per buffer: DF17 with correct parity, DF20/21 (any AP), DF4/5/11, plus DF17 with 1-3 flipped bits (must be "
+RULE = ("1-3 sample buffers per case, 1-4 frames per buffer: DF17 with correct parity, DF20/21 (any AP), DF4/5/11, plus DF17 with 1-3 flipped bits and valid DF17 of which 1-2 bits arrive with both chips high and nearly balanced (the received bits must be "
         "absent); pulse-position modulation at 2 samples/us behind the 8 us preamble, frame amplitude A in [0.3,1.4] with +-10% per-pulse jitter clipped to "
         "that range, any start offset (both sample parities), gaps of at least one frame length (>= 112 samples behind a short frame, >= 224 behind a long one) and a >= 400-sample noise-only lead; every non-pulse sample is noise "
         "bounded by n = min(rho * A_min, 0.19) with rho in [0, 0.316) drawn per buffer (every pulse >= 10 dB above every noise sample of its buffer), shapes zero/constant/uniform/two-level; "
@@ -49,7 +49,8 @@ def noise_sample(shape, n, seed, k):
     return n if u < 0.25 else 0.0  # two-level
 
 
-def modulate(hexmsg, amp, jseed):
+def modulate(hexmsg, amp, jseed, smear=()):
+    """smear: bit positions (0 = first) transmitted with BOTH chips high and nearly equal, the wrong one 1.5 % stronger: the bit is received inverted"""
     nb = len(hexmsg) * 4
     v = int(hexmsg, 16)
     out = []
@@ -64,7 +65,11 @@ def modulate(hexmsg, amp, jseed):
     for s in PRE:
         out.append(pulse() if s else None)
     for i in range(nb - 1, -1, -1):
-        if (v >> i) & 1:
+        bit = (v >> i) & 1
+        if (nb - 1 - i) in smear:
+            a = pulse()
+            out += [a * 0.985, a] if bit else [a, a * 0.985]
+        elif bit:
             out += [pulse(), None]
         else:
             out += [None, pulse()]
@@ -75,7 +80,7 @@ def synth(buf, nlevel):
     """buf: {'lead','items':[{'msg','amp','jseed','gap'}],'shape','nseed'} -> sample list"""
     slots = [None] * buf["lead"]
     for it in buf["items"]:
-        slots += modulate(it["msg"], it["amp"], it["jseed"])
+        slots += modulate(it["msg"], it["amp"], it["jseed"], tuple(it.get("smear", ())))
         slots += [None] * it["gap"]
     return [s if s is not None else noise_sample(buf["shape"], nlevel, buf["nseed"], k) for k, s in enumerate(slots)]
 
@@ -98,7 +103,13 @@ def admissible(msg):
 
 @st.composite
 def s_frame(draw):
-    kind = draw(st.sampled_from(["df17", "df17", "commb", "short", "short", "bad17"]))
+    kind = draw(st.sampled_from(["df17", "df17", "commb", "short", "short", "bad17", "smeared17"]))
+    smear = None
+    if kind == "smeared17":
+        # a valid squitter of which 1-2 bits arrive with both chips high and nearly balanced, the wrong one slightly stronger: what is received
+        # is a frame with a non-zero checksum, whatever a receiver makes of the ambiguity
+        kind = "df17"
+        smear = draw(st.lists(gen.uint(5, 111), min_size=1, max_size=2, unique=True))
     if kind in ("df17", "bad17"):
         v = frames.df17(draw(gen.ubits(24)), draw(gen.ubits(56)), ca=draw(gen.uint(0, 7)))
         if kind == "bad17":
@@ -112,6 +123,9 @@ def s_frame(draw):
     amp = draw(st.one_of(gen.ufloat(0.3, 1.4), gen.ufloat(0.3, 0.9), st.sampled_from([0.3, 1.4, 1.0])))
     # the gap behind a frame: at least one frame length of noise - 112 samples (56 us) behind a short frame, 224 behind a long one
     least = len(msg) * 8
+    if smear:
+        amp = draw(gen.ufloat(0.3, 1.35))     # (the 1.5 % difference must survive the clipping at 1.4)
+        return {"msg": msg, "amp": amp, "jseed": draw(gen.ubits(32)), "smear": smear, "gap": draw(gen.uint(least + 16, 700))}
     return {"msg": msg, "amp": amp, "jseed": draw(gen.ubits(32)),
             "gap": draw(st.one_of(st.sampled_from([least, least + 1, least + 2, 240, 241]), gen.uint(least, 700), gen.uint(240, 700)))}
 
@@ -158,20 +172,21 @@ def chk_case(case, note):
         if r[0] != "ok":
             return "_process_buffer raised %r on buffer %d" % (r[1:], bi)
         got = [m[0] for m in r[1]]
-        want = [it["msg"] for it in buf["items"] if admissible(it["msg"])]
+        want = [it["msg"] for it in buf["items"] if admissible(it["msg"]) and not it.get("smear")]
+        repaired = {it["msg"] for it in buf["items"] if it.get("smear")}   # a receiver may drop a smeared squitter or hand over its repaired form, never the received bits
         for g in got:
             if not isinstance(g, str) or g != g.upper() or len(g) not in (14, 28):
                 return "returned %r: not an upper-case hex frame of 14/28 digits" % (g,)
             if len(g) == 28 and int(g[:2], 16) >> 3 == 17 and crc24.remainder(int(g, 16), 112) != 0:
                 return "returned DF17 frame %s whose checksum is non-zero" % g
-        if got != want:
+        if [g for g in got if g not in repaired] != want:
             return "buffer %d (noise %s up to %.4f, amplitudes %s): returned %r, transmitted admissible frames %r" % (
                 bi, buf["shape"], nlevel, [round(it["amp"], 3) for it in buf["items"]], got, want)
         pos = buf["lead"]
         for it in buf["items"]:
             lens.add(len(it["msg"]))
             odd = odd or pos % 2 == 1
-            bad = bad or not admissible(it["msg"])
+            bad = bad or not admissible(it["msg"]) or bool(it.get("smear"))
             pos += 16 + len(it["msg"]) * 8 + it["gap"]
     note.cls("buffers%d" % len(case["buffers"]))
     if case.get("debug"):
@@ -222,8 +237,12 @@ def chk_iq(case, note):
             return "_read_callback raised %r" % (r[1:],)
         if k < len(pieces) - 1 and rd.got:
             return "_read_callback handed over %r before the sample buffer had filled" % rd.got
-    want = [it["msg"] for it in case["items"] if admissible(it["msg"])]
-    if rd.got != want:
+    want = [it["msg"] for it in case["items"] if admissible(it["msg"]) and not it.get("smear")]
+    repaired = {it["msg"] for it in case["items"] if it.get("smear")}
+    for g in rd.got:
+        if len(g) == 28 and int(g[:2], 16) >> 3 == 17 and crc24.remainder(int(g, 16), 112) != 0:
+            return "IQ samples through _read_callback: handle_messages received DF17 frame %s whose checksum is non-zero" % g
+    if [g for g in rd.got if g not in repaired] != want:
         return "IQ samples through _read_callback: handle_messages received %r, transmitted admissible frames %r (noise %s up to %.4f)" % (rd.got, want, case["shape"], nlevel)
     note.cls("iq-chunks%d" % case["chunks"])
     note.nt(True)
@@ -279,7 +298,8 @@ def chk_long(case, note):
         slots += [None] * (case["total"] - len(slots))
     noise = np.resize(tile, len(slots)).tolist()
     samples = [s if s is not None else noise[k] for k, s in enumerate(slots)]
-    want = [it["msg"] for it in case["items"] if admissible(it["msg"])]
+    want = [it["msg"] for it in case["items"] if admissible(it["msg"]) and not it.get("smear")]
+    repaired = {it["msg"] for it in case["items"] if it.get("smear")}
     if case["kind"] == "oversize-iq":
         phase = np.resize(np.array([unit(case["pseed"], k) for k in range(2048)]), len(samples))
         iq = np.array(samples) * np.exp(2j * np.pi * phase)
@@ -298,7 +318,10 @@ def chk_long(case, note):
         if r[0] != "ok":
             return "_process_buffer raised %r on a buffer of %d samples" % (r[1:], len(samples))
         got = [m[0] for m in r[1]]
-    if got != want:
+    for g in got:
+        if len(g) == 28 and int(g[:2], 16) >> 3 == 17 and crc24.remainder(int(g, 16), 112) != 0:
+            return "%s buffer of %d samples: returned DF17 frame %s whose checksum is non-zero" % (case["kind"], len(samples), g)
+    if [g for g in got if g not in repaired] != want:
         miss = [m for m in want if m not in got]
         return "%s buffer of %d samples (noise %s up to %.4f): %d frames returned, %d transmitted admissible; missing %r, unexpected %r" % (
             case["kind"], len(samples), case["shape"], nlevel, len(got), len(want), miss[:3], [m for m in got if m not in want][:3])
